@@ -354,6 +354,9 @@ From FluteV Require Import Proofs.C02RS Proofs.C02SessionRS Proofs.C01RS.
    (esi - k)-th parity shard [rep] produced for block sbn.  Memory: rs_mem_need oti L <= max_size_allocated, i.e. L
    for FEC 5 and L rounded up to a whole number of symbols for FEC 129 [C01_rs129_clean_channel_limit_refuted];
    at most 4097 blocks; E < 2^16; the other environment premises of the No-Code theorem.
+   rs_rep_sym_ok rep c content (new with the repair of D47: BlockDecoder::push discards a symbol longer than E): every
+   parity shard the encoder oracle produces for a block of this object has at most E bytes (reed_solomon_erasure:
+   exactly E); it gives rs_rep_sized for rx_rep, the premise of C02_rs_recoverable_delivers.
    Conclusion: as for No-Code.  In this in-order run the oracle is in fact never needed (every source symbol arrives:
    the model reassembles the block itself); it is needed for the statements after earlier packets / late join (C16).
    What had to agree between the two models and does (proved, not assumed):
@@ -366,7 +369,7 @@ From FluteV Require Import Proofs.C02RS Proofs.C02SessionRS Proofs.C01RS.
 Theorem C01_clean_channel_rs :
   forall rep raptor_src c content oti E toi max fid files inst md5,
   is_rs (c_fec c) = true -> filedesc_accepts c = true -> c_tlen c = lenN content -> 0 < c_tlen c ->
-  (1 <= c_window c)%nat -> rep_len_ok rep ->
+  (1 <= c_window c)%nat -> rep_len_ok rep -> rs_rep_sym_ok rep c content ->
   c_e c < 65536 ->
   oti_matches_rs c oti -> fdt_entry_for files inst toi oti (c_tlen c) md5 ->
   writer_accepts E toi -> writes_succeed E toi -> md5_good E content md5 ->
@@ -389,7 +392,7 @@ Print Assumptions C01_clean_channel_rs.
 Theorem C01_clean_channel_rs_after_earlier_packets :
   forall rep raptor_src c content oti E toi max fid files inst md5,
   is_rs (c_fec c) = true -> filedesc_accepts c = true -> c_tlen c = lenN content -> 0 < c_tlen c ->
-  (1 <= c_window c)%nat -> rep_len_ok rep ->
+  (1 <= c_window c)%nat -> rep_len_ok rep -> rs_rep_sym_ok rep c content ->
   c_e c < 65536 ->
   oti_matches_rs c oti -> fdt_entry_for files inst toi oti (c_tlen c) md5 ->
   writer_accepts E toi -> writes_succeed E toi -> md5_good E content md5 ->
@@ -438,6 +441,19 @@ Theorem C01_wire_bridge_rs : forall rep c content oti toi al as_ nal n,
   /\ map a_close_obj (map (to_apkt_rs (c_fec c) toi) ps) = map p_close ps.
 Proof. exact bridge_all_rs. Qed.
 Print Assumptions C01_wire_bridge_rs.
+
+(* the premise added with the repair of D47, unfolded; it gives C02's premise rs_rep_sized for the receiver-side view of
+   the sender's encoder; the XOR toy encoder satisfies it for every configuration with E >= 2.  As rq_rep_sized for
+   RaptorQ, it is what the route through C02_rs_recoverable_delivers asks: on a clean channel every source symbol
+   arrives, so an over-long repair symbol would be discarded without harm *)
+Theorem C01_rs_rep_sym_ok_statement : forall rep c content oti,
+  (rs_rep_sym_ok rep c content <-> forall s x, In x (blk_parity rep c content s) -> lenN x <= c_e c)
+  /\ (ro_e oti = c_e c -> rs_rep_sym_ok rep c content -> rs_rep_sized oti (rx_rep rep c content))
+  /\ (2 <= c_e c -> rs_rep_sym_ok xor_rep c content).
+Proof.
+  intros. split; [reflexivity|]. split; [apply rx_rep_sized|apply xor_rep_sym_ok_gen].
+Qed.
+Print Assumptions C01_rs_rep_sym_ok_statement.
 
 (* non-vacuity with the XOR toy code on both sides (xor_rep: one parity shard = XOR of the padded source symbols;
    decoder xor_dec of Proofs/C02RS.v): the 5-byte object, E = 2, parity 1, two interleaved blocks, debug-profile
@@ -499,6 +515,7 @@ Proof. exact rs129_clean_channel_limit_refuted. Qed.
 Theorem C01_session_clean_channel_rs :
   forall rep raptor_src cfg complete now m content E rcfg nowr id sct,
   sender_ok_rs cfg now m content -> doc_fits cfg complete now m -> rep_len_ok rep ->
+  rs_rep_sym_ok rep (obj_ecfg_rs cfg m 1 false false) content ->
   receiver_ok_rs rep E rcfg nowr sct cfg now m content ->
   forall (window : nat) (closable debug fti : bool), (1 <= window)%nat ->
   let '(_, r, cx) := recv_run E fdt_oracle rcfg recv0
@@ -855,6 +872,11 @@ From FluteV Require Import Proofs.C01FQ.
      Both the E-byte chunks (premise of C08_transfer_full) and the semi-equal pieces the crate really cuts (finding D30)
      satisfy it: D30 does NOT matter for C01 - the payloads are not the E-byte slices, but sender and receiver agree
      because both sides use the crate  [C01_example_D30_class_delivered: known_D30 = true, P_C08_transfer = false, delivered];
+   - rp_syms_sized (Raptor; new with the repair of D47: BlockDecoder::push discards a symbol longer than E): every encoding
+     symbol of every block - the source symbols the crate cuts (at most ceil(block length / k) <= E bytes) and its repair
+     symbols - has at most E bytes; needed only for fq_sized_pkt (C02's premise, which now asks a Raptor payload to have
+     at most E bytes): a longer repair symbol is discarded and the object is delivered all the same by its source symbols
+     [C01_rp_syms_sized_refuted];
    That every ESI fits the ESI field of the payload id (fq_esi_fits: al + parity <= 2^24 for RaptorQ, 2^16 for Raptor) is no
    longer a premise: since the fix D46 it follows from filedesc_accepts (C01_accepts_esi_fits_fq below; before the fix
    configurations with 2^24 - k / 2^16 - k or more repair symbols per block were accepted and the repair ESIs wrapped onto
@@ -870,6 +892,7 @@ Theorem C01_clean_channel_fq :
   is_fq (c_fec c) = true -> filedesc_accepts c = true -> c_tlen c = lenN content -> 0 < c_tlen c ->
   (1 <= c_window c)%nat ->
   rep_len_ok rep -> rq_rep_sized rep c content -> raptor_src_ok raptor_src c content ->
+  rp_syms_sized rep raptor_src c content ->
   c_e c < 65536 ->
   oti_matches_fq c oti -> fq_blocks_ok oti (c_tlen c) -> fdt_entry_for files inst toi oti (c_tlen c) md5 ->
   writer_accepts E toi -> writes_succeed E toi -> md5_good E content md5 ->
@@ -895,6 +918,7 @@ Theorem C01_clean_channel_fq_after_earlier_packets :
   is_fq (c_fec c) = true -> filedesc_accepts c = true -> c_tlen c = lenN content -> 0 < c_tlen c ->
   (1 <= c_window c)%nat ->
   rep_len_ok rep -> rq_rep_sized rep c content -> raptor_src_ok raptor_src c content ->
+  rp_syms_sized rep raptor_src c content ->
   c_e c < 65536 ->
   oti_matches_fq c oti -> fq_blocks_ok oti (c_tlen c) -> fdt_entry_for files inst toi oti (c_tlen c) md5 ->
   writer_accepts E toi -> writes_succeed E toi -> md5_good E content md5 ->
@@ -936,6 +960,7 @@ Theorem C01_wire_bridge_fq : forall rep raptor_src c content oti toi,
   is_fq (c_fec c) = true -> filedesc_accepts c = true -> c_tlen c = lenN content -> 0 < c_tlen c ->
   (1 <= c_window c)%nat ->
   rep_len_ok rep -> rq_rep_sized rep c content -> raptor_src_ok raptor_src c content ->
+  rp_syms_sized rep raptor_src c content ->
   oti_matches_fq c oti ->
   Forall (fun q => fq_genuine_pkt oti content (rx_enc rep raptor_src c content) q = true) (wire_pkts_fq rep raptor_src c content toi)
   /\ Forall (fun q => fq_sized_pkt oti q = true) (wire_pkts_fq rep raptor_src c content toi)
@@ -989,6 +1014,10 @@ Theorem C01_fq_statements : forall rep rsrc c content oti s i,
        let '(al, as_, nal, n) := block_partitioning (c_b c) (c_tlen c) (c_e c) in
        forall s, s < n -> Forall (fun d => lenN d = c_e c)
                                  (rep RaptorQ s (blk_buf c content s) (nominal_syms al as_ nal s) (c_parity c))))
+  /\ (rp_syms_sized rep rsrc c content <->
+      (c_fec c = Raptor ->
+       let '(al, as_, nal, n) := block_partitioning (c_b c) (c_tlen c) (c_e c) in
+       forall s, s < n -> Forall (fun d => lenN d <= c_e c) (blk_syms rep rsrc c content s)))
   /\ (rep_len_ok rep <-> forall f sbn buf k p, lenN (rep f sbn buf k p) <= p)
   /\ fq_esi_fits c = (let '(al, _, _, _) := block_partitioning (c_b c) (c_tlen c) (c_e c) in
                       al + c_parity c <=? match c_fec c with Raptor => 65536 | _ => 16777216 end)
@@ -997,6 +1026,7 @@ Theorem C01_fq_statements : forall rep rsrc c content oti s i,
 Proof.
   intros rep rsrc c content oti s i. split; [reflexivity|]. split; [reflexivity|].
   split; [split; intros X; exact X|]. split; [split; intros X; exact X|]. split; [split; intros X; exact X|].
+  split; [split; intros X; exact X|].
   split; [reflexivity|]. split; intros X; exact X.
 Qed.
 Print Assumptions C01_fq_statements.
@@ -1105,6 +1135,15 @@ Example C01_rq_rep_sized_refuted :
      = (Completed, [CallOpen true; CallWrite [1; 2; 3; 4] true; CallWrite [5] true; CallComplete]).
 Proof. exact rq_rep_sized_refuted. Qed.
 
+(* rp_syms_sized (D47) is needed for fq_sized_pkt only: Raptor, E = 2, 3-byte repair symbols are discarded by the block
+   decoder; the object is delivered all the same by its source symbols *)
+Example C01_rp_syms_sized_refuted :
+  map (fq_sized_pkt exp16_oti) (wire_pkts_fq long_rep (chunk_rsrc 2) (exp_cfg true) ex16 7)
+  = [true; true; true; true; true; true; true; true; false; false]
+  /\ summary 7 (receive env_sys 1 exp16_files None 7 1000 (wire_pkts_fq long_rep (chunk_rsrc 2) (exp_cfg true) ex16 7))
+     = (Completed, [CallOpen true; CallWrite [1; 2; 3; 4; 5; 6; 7; 8] true; CallWrite [9; 10; 11; 12; 13; 14; 15; 16] true; CallComplete]).
+Proof. exact rp_syms_sized_refuted. Qed.
+
 (* ---------------- session level, a RaptorQ / Raptor object in a No-Code session ----------------
    As C01_session_clean_channel_rs, for ONE accepted non-empty object sent with its own RaptorQ / Raptor OTI
    (TransferConfig.oti with FEC 6 or 1 and its scheme-specific element); the session OTI stays No-Code, so the FDT instance
@@ -1138,7 +1177,8 @@ Theorem C01_session_statements_fq : forall rep raptor_src cfg complete now m con
    /\ filedesc_accepts c = true
    /\ FdtInst.m_tlen m = lenN content /\ 0 < FdtInst.m_tlen m /\ m_toi m <> 0 /\ FdtInst.m_clen m < 18446744073709551616
    /\ time_in_era now /\ spec_expires now (c_dur cfg) < 4294967296 /\ meta_ok cfg now m
-   /\ rep_len_ok rep /\ rq_rep_sized rep c content /\ raptor_src_ok raptor_src c content)
+   /\ rep_len_ok rep /\ rq_rep_sized rep c content /\ raptor_src_ok raptor_src c content
+   /\ rp_syms_sized rep raptor_src c content)
   /\ (obj_roti_fq cfg m
       = mk_roti (match (if fec_id (used_oti cfg m) =? 1 then Raptor else RaptorQ) with Raptor => FRaptor | _ => FRaptorQ end)
                 (esl (used_oti cfg m)) (max_sbl (used_oti cfg m)) (parity (used_oti cfg m))
